@@ -512,6 +512,8 @@ OUT_ALL = ['ok', 'fail', 'raise', 'none', 'notpair', 'badstatus', 'badupdate', '
 CHAIN3 = dict(n=3, workers=2, edges=[[2, 1, 'hard'], [3, 2, 'soft']], outcome={})
 DIAMOND = dict(n=4, workers=2, edges=[[2, 1, 'hard'], [3, 1, 'soft'], [4, 2, 'hard'], [4, 3, 'hard']], outcome={'3': 'raise'})
 PAIR = dict(n=2, workers=2, edges=[[2, 1, 'hard']], outcome={})
+# a DONE task of an earlier run whose hard dependency must run again and whose soft dependency is slow
+REUSE = dict(n=3, workers=2, edges=[[3, 1, 'hard'], [3, 2, 'soft']], outcome={}, init={'3': 'DONE'})
 
 
 def run_c01(ctx):
@@ -528,7 +530,7 @@ def run_c01(ctx):
                        (5, 4, ['ok', 'ok', 'fail', 'raise'], None, False, ctx.pick(8, 40), ctx.pick(8, 25))],
             sim_plan=[('c01sim_n3w2', 3, 2, 'MC_DagEmpty3', ctx.pick(250, 2500), 60),
                       ('c01sim_n2w2', 2, 2, 'MC_DagInit', ctx.pick(100, 800), 50)],
-            dfs_plan=[(PAIR, ctx.pick(1500, 40000))] + ([] if q else [(CHAIN3, 60000)]))
+            dfs_plan=[(PAIR, ctx.pick(1500, 40000)), (REUSE, ctx.pick(1500, 40000))] + ([] if q else [(CHAIN3, 60000)]))
 
 
 def run_c02(ctx):
